@@ -305,7 +305,7 @@ STATIC char const * _soxr_init(
     return "precision not in [15,33] bits";
   if (!(io_ratio > 0))
     return "resampling factor not positive";
-  if (!(io_ratio < 2147483648.))     /* Stage planning uses int arithmetic. */
+  if (!(io_ratio < 2147483647.))     /* Stage planning uses int arithmetic. */
     return "resampling factor too large";
   if (!(0 <= phase_response && phase_response <= 100))
     return "phase response not in [0=min-phase,100=max-phase] %";
